@@ -22,6 +22,7 @@ type c07Cfg struct {
 	UseLatest  bool     `json:"use_latest"`
 	IntervalMs int      `json:"interval_ms"` // 0: custom ticker driven by tick ops
 	TailMs     int      `json:"tail_ms"`
+	ReuseHdr   bool     `json:"reuse_hdr,omitempty"` // the caller reuses (and overwrites) one header object per stream
 }
 
 type c07Op struct {
@@ -140,6 +141,7 @@ func (c07) Gen(seed int64, tier string, avoid []string) *Plan {
 		}
 	}
 	sort.SliceStable(ops, func(i, j int) bool { return ops[i].AtUs < ops[j].AtUs })
+	cfg.ReuseHdr = chance(r, 400)
 	p.Cfg = mustJSON(cfg)
 	setOps(p, ops)
 	p.LimitMs = (end/1000 + 100_000)
@@ -250,9 +252,15 @@ func (c07) Run(e *Env) {
 		}
 		gs = append(gs, e.Go(fmt.Sprintf("writer%d", i), func() {
 			me := simrt.Cur().ID
+			reused := &rtp.Header{}
 			for _, o := range sops {
 				simrt.SleepUntil(us(o.AtUs))
 				h := &rtp.Header{Version: 2, SSRC: st.ssrc, PayloadType: 96, SequenceNumber: o.Seq, Timestamp: o.TS}
+				if cfg.ReuseHdr {
+					*reused = *h
+					h = reused
+					e.Fault("caller_reuses_header")
+				}
 				pl := make([]byte, o.Len)
 				c07Enter(st, hooks, me, cfg.UseLatest, o)
 				failNext = o.WErr
@@ -265,6 +273,11 @@ func (c07) Run(e *Env) {
 					e.Violatef("oracle", "c07:write-result", "Write returned (%d,%v)", n, err)
 				}
 				c07Return(st)
+				if cfg.ReuseHdr {
+					// the header is the caller's again: whatever it holds now must not show up in a report
+					h.Timestamp ^= 0x5A5A5A5A
+					h.SequenceNumber += 7777
+				}
 			}
 		}))
 	}
